@@ -115,14 +115,11 @@ func c14R5(c *kit.Ctx, cm *c14Model, r5 *kit.Rule) {
 func c14ListLoops(cm *c14Model, f *kit.Func) map[*ast.RangeStmt]bool {
 	out := map[*ast.RangeStmt]bool{}
 	info := f.Info()
-	ruInspectOwn(f, func(n ast.Node) bool {
-		if rs, ok := n.(*ast.RangeStmt); ok {
-			if el := ruSliceElem(info.TypeOf(rs.X)); el != nil && types.Identical(el, cm.tr) {
-				out[rs] = true
-			}
+	for _, rs := range ruOwnLoops(f) {
+		if el := ruSliceElem(info.TypeOf(rs.X)); el != nil && types.Identical(el, cm.tr) {
+			out[rs] = true
 		}
-		return true
-	})
+	}
 	return out
 }
 
@@ -493,11 +490,7 @@ func c14FilterRun(c *kit.Ctx, cm *c14Model, flt *c14Filter, fparam *types.Var, r
 	}
 	outer := c14ListLoops(cm, f)
 	inner := map[*ast.RangeStmt]bool{}
-	ruInspectOwn(f, func(n ast.Node) bool {
-		rs, ok := n.(*ast.RangeStmt)
-		if !ok {
-			return true
-		}
+	for _, rs := range ruOwnLoops(f) {
 		switch xo := kit.ObjOf(info, rs.X); {
 		case flt.image != nil && rs == flt.image.loop:
 			// the parse loop that builds the list of filter values
@@ -506,8 +499,7 @@ func c14FilterRun(c *kit.Ctx, cm *c14Model, flt *c14Filter, fparam *types.Var, r
 		case flt.image != nil && xo == flt.image.list:
 			inner[rs] = true
 		}
-		return true
-	})
+	}
 	if flt.image != nil && !flt.image.exact {
 		// the list the windows are compared with is not the whole filter
 		if fv, _ := c14ForeignReads(cm, f, fparam); len(fv) > 0 {
